@@ -16,6 +16,7 @@ import (
 	"encoding/json"
 	"errors"
 	"fmt"
+	"io"
 	"io/ioutil"
 	"net"
 	"net/url"
@@ -24,6 +25,7 @@ import (
 	"time"
 
 	"github.com/bfenetworks/bfe/bfe_basic"
+	"github.com/bfenetworks/bfe/bfe_bufio"
 	"github.com/bfenetworks/bfe/bfe_http"
 	"github.com/bfenetworks/bfe/bfe_modules/mod_doh"
 
@@ -40,6 +42,8 @@ type dohCase struct {
 	Cfam    string   `json:"cfam"`   // v4 | v4in16 | v6
 	Via     string   `json:"via"`    // remote | client
 	Edns    string   `json:"edns"`   // none | opt | optdo | cookie | ecs
+	Frame   string   `json:"frame"`  // POST: cl (Content-Length) | chunked
+	Deliv   string   `json:"deliv"`  // POST: complete | cutrr | cutmid | reset
 	Allowed []string `json:"allowed"`
 	Gray    bool     `json:"gray"`
 	Fam     int      `json:"fam"`
@@ -362,7 +366,100 @@ func dohRun() {
 	})
 }
 
-func dohRequest(c *dohCase, wire []byte) (*bfe_basic.Request, net.IP, error) {
+// faultReader is the connection a POST arrives on: the bytes that were delivered, then the end of
+// the stream (io.EOF: the sender closed) or a transport error (connection reset).
+type faultReader struct {
+	data []byte
+	err  error
+}
+
+func (f *faultReader) Read(p []byte) (int, error) {
+	if len(f.data) == 0 {
+		return 0, f.err
+	}
+	n := copy(p, f.data)
+	f.data = f.data[n:]
+	return n, nil
+}
+
+// lastRecordOffset: where the last resource record of the message starts (12 = right after the
+// header when nothing follows the question): a cut there leaves a prefix that still parses.
+func lastRecordOffset(q *dMsg, wire []byte) int {
+	for s := 2; s >= 0; s-- {
+		if n := len(q.RRs[s]); n > 0 {
+			return len(wire) - len(q.RRs[s][n-1].wire())
+		}
+	}
+	return 12
+}
+
+// postRequest parses the POST off a byte stream with the real HTTP request reader, so that the
+// body is the real body reader (Content-Length or chunked) over a connection that may end early.
+func postRequest(c *dohCase, q *dMsg, wire []byte) (*bfe_http.Request, error) {
+	cut := len(wire)
+	var end error = io.EOF
+	switch c.Deliv {
+	case "", "-", "complete":
+	case "cutrr":
+		cut = lastRecordOffset(q, wire)
+	case "cutmid":
+		cut = len(wire) - 1
+	case "reset":
+		cut, end = len(wire)/2, errors.New("read tcp 192.0.2.1:40000->198.51.100.1:443: read: connection reset by peer")
+	default:
+		return nil, fmt.Errorf("unknown deliv %q", c.Deliv)
+	}
+	if cut < 0 || cut > len(wire) {
+		return nil, fmt.Errorf("cut %d outside the %d-byte message", cut, len(wire))
+	}
+	head := c.Method + " /dns-query HTTP/1.1\r\nHost: doh.example.org\r\nAccept: application/dns-message\r\n"
+	switch c.Ctype {
+	case "dns":
+		head += "Content-Type: application/dns-message\r\n"
+	case "other":
+		head += "Content-Type: text/plain\r\n"
+	}
+	var stream []byte
+	if c.Frame == "chunked" {
+		head += "Transfer-Encoding: chunked\r\n\r\n"
+		stream = []byte(head)
+		chunk := func(decl int, data []byte, closed bool) {
+			stream = append(stream, fmt.Sprintf("%x\r\n", decl)...)
+			stream = append(stream, data...)
+			if closed {
+				stream = append(stream, "\r\n"...)
+			}
+		}
+		switch c.Deliv {
+		case "cutrr": // the first chunk is complete, the stream ends where the next chunk should start
+			split := cut
+			if split == 0 {
+				split = 1
+			}
+			chunk(split, wire[:split], true)
+		case "cutmid", "reset": // the stream ends inside a chunk
+			chunk(len(wire), wire[:cut], false)
+		default:
+			split := lastRecordOffset(q, wire)
+			if split <= 0 || split >= len(wire) {
+				split = (len(wire) + 1) / 2
+			}
+			if split > 0 && split < len(wire) {
+				chunk(split, wire[:split], true)
+				chunk(len(wire)-split, wire[split:], true)
+			} else if len(wire) > 0 {
+				chunk(len(wire), wire, true)
+			}
+			stream = append(stream, "0\r\n\r\n"...)
+		}
+	} else {
+		head += fmt.Sprintf("Content-Length: %d\r\n\r\n", len(wire))
+		stream = append([]byte(head), wire[:cut]...)
+	}
+	return bfe_http.ReadRequest(bfe_bufio.NewReader(&faultReader{data: stream, err: end}), 8192)
+}
+
+func dohRequest(c *dohCase, q *dMsg, wire []byte) (*bfe_basic.Request, net.IP, error) {
 	var hr *bfe_http.Request
 	var err error
 	switch c.Method {
@@ -394,15 +491,7 @@ func dohRequest(c *dohCase, wire []byte) (*bfe_basic.Request, net.IP, error) {
 		}
 		hr, err = bfe_http.NewRequest("GET", "https://doh.example.org/dns-query?"+q, nil)
 	default:
-		hr, err = bfe_http.NewRequest(c.Method, "https://doh.example.org/dns-query", bytes.NewReader(wire))
-		if err == nil {
-			switch c.Ctype {
-			case "dns":
-				hr.Header.Set("Content-Type", "application/dns-message")
-			case "other":
-				hr.Header.Set("Content-Type", "text/plain")
-			}
-		}
+		hr, err = postRequest(c, q, wire)
 	}
 	if err != nil {
 		return nil, nil, err
@@ -528,7 +617,7 @@ func compareForwarded(c *dohCase, q *dMsg, fwd []byte, ip net.IP) (kind, det str
 
 func dohOne(c *dohCase, limit int, up *upstream, fetcher *mod_doh.DnsClient) vh.Result {
 	res := vh.Result{ID: c.ID}
-	key := fmt.Sprintf("doh/%s/enc=%s/size=%s/msg=%s/%s-%s/edns=%s", c.Method, c.Enc, c.Size, c.Msg, c.Cfam, c.Via, c.Edns)
+	key := fmt.Sprintf("doh/%s/enc=%s/size=%s/msg=%s/%s-%s/edns=%s/%s-%s", c.Method, c.Enc, c.Size, c.Msg, c.Cfam, c.Via, c.Edns, c.Frame, c.Deliv)
 	q, wire, err := buildQuery(c, limit)
 	if err != nil {
 		res.Sig, res.Detail = "machinery", err.Error()
@@ -545,6 +634,9 @@ func dohOne(c *dohCase, limit int, up *upstream, fetcher *mod_doh.DnsClient) vh.
 			k = "doh/edns=" + c.Edns
 		case strings.HasPrefix(bare, "verdict="):
 			k = fmt.Sprintf("doh/%s/enc=%s/ctype=%s/size=%s/msg=%s", c.Method, c.Enc, c.Ctype, c.Size, c.Msg)
+			if c.Deliv != "" && c.Deliv != "-" && c.Deliv != "complete" {
+				k += "/body=" + c.Frame + "-" + c.Deliv
+			}
 		}
 		res.Sig, res.Detail = k+":"+kind, fmt.Sprintf("[%s] %s [client message %d bytes, limit %d]", key, det, len(wire), limit)
 		return res
@@ -553,7 +645,7 @@ func dohOne(c *dohCase, limit int, up *upstream, fetcher *mod_doh.DnsClient) vh.
 	res.Obs = obs
 
 	// (1) RequestToDnsMsg + Pack
-	req, ip, err := dohRequest(c, wire)
+	req, ip, err := dohRequest(c, q, wire)
 	if err != nil {
 		res.Sig, res.Detail = "machinery", err.Error()
 		return res
@@ -572,7 +664,7 @@ func dohOne(c *dohCase, limit int, up *upstream, fetcher *mod_doh.DnsClient) vh.
 		return fail("panic", pan)
 	}
 	// (2) the whole fetch path, observed at the upstream
-	req2, _, _ := dohRequest(c, wire)
+	req2, _, _ := dohRequest(c, q, wire)
 	before := atomic.LoadInt64(&up.n)
 	var ferr error
 	var frsp *bfe_http.Response
